@@ -130,8 +130,42 @@ class Stencil:
         out = []
         for path, env, pending, apps, off in states:
             self._flush(path, pending, apps, off)
-            out.append(path)
+            out.extend(self._split_conditional_values(path))
         return out
+
+    def _split_conditional_values(self, path, limit=4):
+        """entries whose row / col / value is a conditional expression (`-w if connection is None else -w * rect(..)`, typically a helper
+        looked through) are read once per truth value of its test: one path per consistent assignment"""
+        tests = []
+        for e in path.entries:
+            for x in (e.row, e.col, e.val):
+                for n in ast.walk(x):
+                    if isinstance(n, ast.IfExp) and not any(au.canon_test(n.test) == au.canon_test(t) for t in tests):
+                        tests.append(n.test)
+        if not tests or len(tests) > limit:
+            return [path]
+        import itertools
+        out = []
+        for vals in itertools.product((True, False), repeat=len(tests)):
+            conds = path.conds + list(zip(tests, vals))
+            if not consistent(conds):
+                continue
+
+            class T(ast.NodeTransformer):
+                def visit_IfExp(self, n):
+                    for t, v in zip(tests, vals):
+                        if au.canon_test(n.test) == au.canon_test(t):
+                            return self.visit(n.body if v else n.orelse)
+                    return self.generic_visit(n)
+            q = Path()
+            q.conds, q.problems, q.unclear, q.bumps, q.stop = conds, list(path.problems), list(path.unclear), dict(path.bumps), path.stop
+            for it in path.items:
+                if isinstance(it, Entry):
+                    q.items.append(Entry(T().visit(sym.clone(it.row)), T().visit(sym.clone(it.col)), T().visit(sym.clone(it.val)), it.mode, it.node, it.slot, it.counter, it.offset))
+                else:
+                    q.items.append(it)
+            out.append(q)
+        return out or [path]
 
     def _fork(self, state):
         path, env, pending, apps, off = state
@@ -272,6 +306,11 @@ class Stencil:
                 if isinstance(t, (ast.Tuple, ast.List)) and isinstance(st.value, (ast.Tuple, ast.List)) and len(t.elts) == len(st.value.elts) \
                         and not any(isinstance(x, ast.Starred) for x in t.elts):
                     pairs += list(zip(t.elts, st.value.elts))
+                elif isinstance(t, (ast.Tuple, ast.List)) and isinstance(st.value, ast.IfExp) and all(
+                        isinstance(x, (ast.Tuple, ast.List)) and len(x.elts) == len(t.elts) for x in (st.value.body, st.value.orelse)):
+                    # a, b, c = (x, y, z) if cond else (u, v, w): component-wise conditional
+                    for i, tt in enumerate(t.elts):
+                        pairs.append((tt, ast.IfExp(test=st.value.test, body=st.value.body.elts[i], orelse=st.value.orelse.elts[i])))
                 elif isinstance(t, (ast.Tuple, ast.List)) and list(sym.split_assign(st)) and len(st.targets) == 1:
                     pairs += [(ast.Name(id=n, ctx=ast.Store()), v) for n, v in sym.split_assign(st)]
                 else:
